@@ -7,6 +7,7 @@ from .. import peval
 from ..flow import Index
 from ..tables import *  # noqa
 from .. import intcast
+from .. import widths
 
 EXPLANATION = ("Static structural analysis (rustc HIR + type-check facts) of the simplification driver: the arm table of "
                "expr::transform::update_expr_children is compared row by row with the variant universe of enum Expr and the child order "
@@ -30,6 +31,7 @@ def run(ctx):
     r012(ctx)
     r013(ctx, t0, t1)
     r014(ctx)
+    r015(ctx)
 
 
 def r011(ctx, t0, t1):
@@ -243,6 +245,43 @@ def r013(ctx, t0, t1):
                 ctx.inst("R01.3", "simplify:%s:child%d" % (name, j), j > last_child or name in COMMUTATIVE, arm["sp"],
                          "dispatcher arm for non-commutative %s passes the children to %s out of order: %s" % (name, short(callee(body)), show(body)))
                 last_child = max(last_child, j)
+
+SIMPLIFY = "patronus::expr::simplify::simplify"
+
+
+def r015(ctx):
+    """width (sort) inference over the rule dispatcher and every rule function it calls"""
+    ctx.rule("R01.5", "type preservation of the rewrite rules, decided by width inference: on every syntactic path of expr::simplify::simplify and the rule functions it calls, "
+                      "(a) the returned expression has the width of the node it replaces and (b) every Context/Builder call and every baa value operation gets operands whose widths satisfy its typing rule "
+                      "(same width for and/or/xor/add/sub/mul/shifts/comparisons, 1-bit ite condition with equal branches); widths are linear terms over the operand widths and integer attributes, "
+                      "path facts are the IR's typing rules for matched nodes, integer lets and equality conditions; range conditions of slice (hi >= lo, hi < width) are inequalities and are not decided")
+    c = ctx.facts.lib("patronus")
+    f = ctx.fn("patronus", SIMPLIFY)
+    if f is None:
+        return
+    ev, results, bound = widths.analyse_dispatch(c, SIMPLIFY)
+    if not (bound["expr"] and bound["children"]):
+        ctx.violation("R01.5", "simplify:parameters", f["span"], "UNRECOGNISED: the rule dispatcher no longer takes the replaced node and its children slice")
+        return
+    decided = 0
+    undecided = []
+    for key, o in sorted(ev.obl.items()):
+        if not o.bad and o.undecided == o.paths:
+            undecided.append(key)
+            continue
+        decided += 1
+        what = "the expression returned here must have the width of the node it replaces" if o.kind == "result" else "operand widths of `%s`" % o.kind.split(":", 1)[1]
+        ctx.inst("R01.5", key, not o.bad, o.node.get("sp"),
+                 "%s: %s - on some path the two widths are %s; `%s`" % (o.fn, what, "; ".join(o.bad[:2]), show(o.node)[:90]),
+                 sample={"site": key, "paths": o.paths, "expr": show(o.node)[:80]} if decided % 9 == 0 else None)
+    for key in undecided:
+        ctx.not_analysed.append("R01.5: %s - the width depends on a value the evaluator does not model (loop-built vector, conversion result)" % key)
+    for (fn, what), n_ in sorted(ev.unmodelled.items(), key=lambda x: (x[0][0], x[0][1])):
+        ctx.not_analysed.append("R01.5: %s: %s" % (fn.split("::")[-1], what))
+    ctx.extra["width_inference"] = {"paths": ev.paths, "results_some": results["some"], "results_none": results["none"], "obligations": len(ev.obl), "decided": decided, "undecided": undecided}
+    ctx.floor("R01.5", "decided width obligations", decided, 120)
+    ctx.floor("R01.5", "rule results reached (Some)", results["some"], 110)
+
 
 LEVEL_TEXT = ("Static table/dataflow analysis over the compiler's type-checked program: proves for all 35 Expr variants at once that the driver's "
               "rebuild step keeps operator, attributes and child positions, that no shift amount or width is silently truncated in the simplifier, and that the "
